@@ -315,4 +315,160 @@ def gen_blame(repo):
     return out
 
 
-GENERATORS = [("Blame", gen_blame)]
+# ---------------------------------------------------------------------------------------------
+# Placeholder grammar of --blame-format (src/format.rs make_placeholder_regex /
+# parse_line_number_format; also serves --blame-separator-format and --line-numbers-*-format)
+# -> lean/DeltaModel/Generated/BlameFormat.lean
+
+def ffail(msg):
+    raise SystemExit("extract: blame-format: " + msg)
+
+
+def squeeze(s):
+    return re.sub(r"\s+", "", strip_rust_comments(s))
+
+
+def class_ranges(body):
+    """`A-Za-z_-` -> [(65, 90), (97, 122), (95, 95), (45, 45)] (a regex bracket class without
+    escapes; a `-` that is first or last is literal)."""
+    out, i = [], 0
+    while i < len(body):
+        c = body[i]
+        if c == "\\" or c == "[" or c == "]":
+            ffail("character class with an escape or a nested class: [" + body + "]")
+        if i + 2 < len(body) and body[i + 1] == "-":
+            lo, hi = ord(c), ord(body[i + 2])
+            if lo > hi:
+                ffail("descending range in class [" + body + "]")
+            out.append((lo, hi))
+            i += 3
+        else:
+            out.append((ord(c), ord(c)))
+            i += 1
+    return out
+
+
+def lean_ranges(rs):
+    return "[" + ", ".join("(%d, %d)" % r for r in rs) + "]"
+
+
+def labels_of(src, rx, what):
+    m = re.search(rx, src, re.S)
+    if not m:
+        ffail(what + ": make_placeholder_regex call not found")
+    labs = re.findall(r'"([^"]*)"', m.group(1))
+    if not labs or any(not re.fullmatch(r"\w+", l) for l in labs):
+        ffail(what + ": labels not recognised: " + m.group(1))
+    return labs
+
+
+def gen_blame_format(repo):
+    fmt = strip_tests(read(repo, "src/format.rs"))
+    blame = strip_tests(read(repo, "src/handlers/blame.rs"))
+    ln = strip_tests(read(repo, "src/features/line_numbers.rs"))
+    # ---- the pattern text
+    m = re.search(r'pub fn make_placeholder_regex\(labels: &\[&str\]\) -> Regex \{\s*Regex::new\(&format!\(\s*r"(.*?)",\s*'
+                  r'labels\.join\("\|"\)\s*\)\)\s*\.unwrap\(\)', fmt, re.S)
+    if not m:
+        ffail("make_placeholder_regex: Regex::new(&format!(r\"...\", labels.join(\"|\"))) not found")
+    text = m.group(1)
+    body = re.sub(r"#[^\n]*", "", text)
+    body = re.sub(r"\s+", "", body)
+    if not body.startswith("(?x)"):
+        ffail("placeholder regex is no longer in verbose mode")
+    # ---- character classes (read wherever they stand; the *structure* is pinned through the text)
+    m1 = re.search(r"\(\[\^([^\]]+)\]\)\?\(\[([^\]]+)\]\)", body)
+    if not m1:
+        ffail("fill / alignment classes `([^..])?([..])` not found in " + body)
+    m2 = re.search(r"_\?\(\[([^\]]+)\]\[([^\]]+)\]\*\)", body)
+    if not m2:
+        ffail("format type `_?([..][..]*)` not found in " + body)
+    if body.count("\\d+") != 2:
+        ffail("expected exactly two `\\d+` (width, precision) in " + body)
+    fill_excl, align_cls = class_ranges(m1.group(1)), class_ranges(m1.group(2))
+    type_start, type_rest = class_ranges(m2.group(1)), class_ranges(m2.group(2))
+    # ---- Align::try_from
+    codes = {"Left": 0, "Center": 1, "Right": 2}
+    arms = re.findall(r'Some\("(.)"\) => Ok\(Align::(\w+)\)', fmt)
+    if len(arms) < 3 or any(a not in codes for _, a in arms):
+        ffail("Align::try_from arms not recognised")
+    # ---- which capture group feeds which field (parse_line_number_format)
+    m = re.search(r"pub fn parse_line_number_format<'a>\(.*?\n\}\n", fmt, re.S)
+    if not m:
+        ffail("parse_line_number_format not found")
+    plf = squeeze(m.group(0))
+    uses = re.findall(r"(\w+):captures\.get\((\d+)\)", plf)
+    if sorted(f for f, _ in uses) != ["alignment_spec", "fmt_type", "placeholder", "precision", "width"]:
+        ffail("parse_line_number_format: capture uses not recognised: %r" % (uses,))
+    for need in ["forcapturesinplaceholder_regex.captures_iter(format_string){",
+                 "letmatch_=captures.get(0).unwrap();",
+                 "letprefix=SmolStr::new(&format_string[offset..match_.start()]);",
+                 "letsuffix=SmolStr::new(&format_string[match_.end()..]);",
+                 "offset=match_.end();",
+                 "ifoffset==0{",
+                 "suffix:SmolStr::new(format_string),"]:
+        if need not in plf:
+            ffail("parse_line_number_format: expected statement not found: " + need)
+    # ---- Placeholder::try_from: labels with a meaning of their own (line numbers), all others Str(label)
+    tf = re.findall(r'Some\("(\w+)"\) => Ok\(Placeholder::(\w+)\)', fmt)
+    if "Some(placeholder) => Ok(Placeholder::Str(placeholder))" not in fmt:
+        ffail("Placeholder::try_from: the Str(label) arm not found")
+    # ---- label sets
+    blame_labels = labels_of(blame, r"static ref BLAME_PLACEHOLDER_REGEX: Regex =\s*format::make_placeholder_regex\(&\[(.*?)\]\)",
+                             "BLAME_PLACEHOLDER_REGEX")
+    sep_labels = labels_of(blame, r"pub fn parse_blame_line_numbers\(.*?let regex = make_placeholder_regex\(&\[(.*?)\]\);",
+                           "parse_blame_line_numbers")
+    ln_labels = labels_of(ln, r"static ref LINE_NUMBERS_PLACEHOLDER_REGEX: Regex =\s*format::make_placeholder_regex\(&\[(.*?)\]\)",
+                          "LINE_NUMBERS_PLACEHOLDER_REGEX")
+    # ---- format_blame_metadata: which BlameLine field a label shows
+    m = re.search(r"pub fn format_blame_metadata\(.*?\n\}\n", blame, re.S)
+    if not m:
+        ffail("format_blame_metadata not found")
+    fbm = m.group(0)
+    marms = list(re.finditer(r'Some\(Placeholder::Str\("(\w+)"\)\) =>', fbm))
+    if not marms:
+        ffail("format_blame_metadata: no Placeholder::Str arms")
+    end = fbm.find("None => None", marms[-1].end())
+    if end < 0:
+        ffail("format_blame_metadata: `None => None` arm not found")
+    fields = {"time": 0, "author": 1, "commit": 2}
+    shows = []
+    for k, a in enumerate(marms):
+        seg = fbm[a.end(): marms[k + 1].start() if k + 1 < len(marms) else end]
+        used = sorted(set(re.findall(r"\bblame\.(\w+)", seg)))
+        if len(used) != 1 or used[0] not in fields:
+            ffail("format_blame_metadata: arm %s reads %r" % (a.group(1), used))
+        shows.append((a.group(1), fields[used[0]]))
+    out = "-- GENERATED by /verif/tools/extractors/blame.py from /repo/src — do not edit.\n"
+    out += "namespace Generated.BlameFormat\n\n"
+    out += "/-- `make_placeholder_regex` (src/format.rs): the `format!` text with the `(?x)` comments and layout\n"
+    out += "    removed (`{{`/`}}` are literal braces, `{}` is the label alternation). -/\n"
+    out += "def regexBody : String := " + lean_str(body) + "\n\n"
+    out += "/-- sha256 of the pattern as written (evidence only). -/\n"
+    out += "def regexTextSha : String := " + lean_str(hashlib.sha256(text.encode()).hexdigest()) + "\n\n"
+    out += "/-- Character classes of the pattern as code point ranges. -/\n"
+    out += "def fillExcluded : List (Nat × Nat) := " + lean_ranges(fill_excl) + "\n"
+    out += "def alignClass : List (Nat × Nat) := " + lean_ranges(align_cls) + "\n"
+    out += "def typeStartClass : List (Nat × Nat) := " + lean_ranges(type_start) + "\n"
+    out += "def typeRestClass : List (Nat × Nat) := " + lean_ranges(type_rest) + "\n\n"
+    out += "/-- `Align::try_from`: code point of the alignment character -> 0 Left | 1 Center | 2 Right. -/\n"
+    out += "def alignTable : List (Nat × Nat) := [" + ", ".join("(%d, %d)" % (ord(c), codes[a]) for c, a in arms) + "]\n\n"
+    out += "/-- `parse_line_number_format`: (field of FormatStringPlaceholderData, capture group it is read from). -/\n"
+    out += "def captureUse : List (String × Nat) := [" + ", ".join(
+        "(%s, %s)" % (lean_str(f), g) for f, g in sorted(uses, key=lambda u: int(u[1]))) + "]\n\n"
+    out += "/-- Labels handed to `make_placeholder_regex`, in alternation order. -/\n"
+    out += "def blameLabels : List (List Char) := [" + ", ".join(lean_chars(l) for l in blame_labels) + "]\n"
+    out += "def separatorLabels : List (List Char) := [" + ", ".join(lean_chars(l) for l in sep_labels) + "]\n"
+    out += "def lineNumberLabels : List (List Char) := [" + ", ".join(lean_chars(l) for l in ln_labels) + "]\n\n"
+    out += "/-- `Placeholder::try_from`: labels with a meaning of their own; every other label is `Str(label)`. -/\n"
+    out += "def specialLabels : List (String × String) := [" + ", ".join(
+        "(%s, %s)" % (lean_str(a), lean_str(b)) for a, b in tf) + "]\n\n"
+    out += "/-- `format_blame_metadata`: label of the arm -> field of the blame line it prints\n"
+    out += "    (0 time | 1 author | 2 commit), in source order. -/\n"
+    out += "def blameFieldOf : List (List Char × Nat) := [" + ", ".join(
+        "(%s, %d)" % (lean_chars(l), c) for l, c in shows) + "]\n"
+    out += "\nend Generated.BlameFormat\n"
+    return out
+
+
+GENERATORS = [("Blame", gen_blame), ("BlameFormat", gen_blame_format)]
